@@ -104,18 +104,23 @@ def main():
         version=1,
         setup_cmd='true',
         hooks=dict(
-            guard='cargo feature `verif` of crate llfree (none committed yet: current obligations need no hook)',
+            guard='none: no hook or instrumentation is committed in /repo (cfg(kani) child modules are appended to a scratch copy only)',
             enable='checks copy /repo to a scratch dir, append `#[cfg(kani)] mod verif_contracts` child modules and run cargo kani',
             baseline_off_cmd='cd /repo && cargo test --workspace --no-fail-fast --offline',
             source_commits=[],
             add_only=True,
         ),
         engines=[dict(name='kani-contracts', path='/verif/check', serves_properties=[c['property_id'] for c in checks],
-                      kind_free_text='pre/post contracts on the real functions, discharged per function by Kani 0.68 / CBMC 6.11; '
-                                     'callee contracts used as verified stubs; native replay of counterexamples')],
+                      kind_free_text='pre/post contracts on the real functions, discharged per function by Kani 0.68 / CBMC 6.11 (kissat / CaDiCaL); '
+                                     'callee contracts used as verified stubs; thread-modular rely/guarantee environments for the lower allocator; '
+                                     'native replay of counterexamples (cargo kani playback)'),
+                 dict(name='verus-lemmas', path='/verif/lemmas/lifting.rs', serves_properties=['C01', 'C02', 'C04'],
+                      kind_free_text='Verus 0.2026.09.13: induction over histories and disjointness of held blocks from the per-call contracts')],
         checks=checks,
         notes='Exit 2 = undecided (build error, lost anchor, timeout, unsupported construct): never an alarm. '
-              'KNOWN_FINDINGS lists recorded defects; replays/ holds counterexamples.',
+              'KNOWN_FINDINGS lists recorded defects (known findings F2 and F10; 10 fixed entries); replays/ holds counterexamples; seeded/ holds 41 confirmed '
+              'property-breaking changes with the detection table (seeded/RESULTS.md). 10 "fix:" commits in /repo repair defects the obligations found. '
+              'The source commits list is empty because no hook was needed.',
         not_applicable=na,
     )
     json.dump(m, open(os.path.join(VERIF, 'MANIFEST.json'), 'w'), indent=1)
